@@ -231,7 +231,8 @@ type c03gen struct {
 	shift0Prob    int // per-mille probability of a shift by 0
 }
 
-var c03Names = []string{"a", "b", "c", "x", "y", "t0", "t1", "x1", "_z", "i7", "Q", "tmp", "_", "k_2", "m", "w9", "acc", "v", "u", "n0"}
+var c03Names = []string{"a", "b", "c", "x", "y", "t0", "t1", "x1", "_z", "i7", "Q", "tmp", "_", "k_2", "m", "w9", "acc", "v", "u", "n0",
+	"DBLE", "Dblx", "E", "RETURNx", "ADDy", "Shl3", "return_value", "addend", "shlv"}
 
 func (c *c03gen) r(n int) int { return c.g.R.Intn(n) }
 
